@@ -22,7 +22,8 @@ ASSUMPTIONS = [
     "generated provenance features = type 'source', label 'source: <id>', plasmid qualifier naming an input of this assembly",
     "ids and names are GenBank-legal and at most 16 characters",
 ]
-IDS = [None, ("A1", "A1"), ("prod_2x", "prod_2x"), ("ABCDEFGHIJKLMNOP", "ABCDEFGHIJKLMNOP"), ("pX1", "nameY")]
+IDS = [None, ("A1", "A1"), ("prod_2x", "prod_2x"), ("ABCDEFGHIJKLMNOP", "ABCDEFGHIJKLMNOP"), ("pX1", "nameY"),
+       ("LVL1_0002", "pVEC_kan-pMOD_prom-pMOD_cds"), ("gb|X.1|with.dots", "N" * 40), ("i" * 33, "a-24-characters-name-xyz"), ("1", "2")]
 
 
 def bounds(tier):
